@@ -80,10 +80,25 @@ def interiorB (r : Range) (a : Array Rat) : List Part → Nat → Bool
       if 0 < k ∧ k + 1 < p.usr then hasAt r a (start + k) else true)
     && interiorB r a ps (start + p.raw)
 
+/-- a drawn end point that lies outside the range is marked by a non-zero fraction code (the consumers
+    take code 0 as "nothing cut": `polyline::part::points` would report the point itself as drawn) -/
+def Flagged (r : Range) (xs : List Rat) : List Part → Nat → Prop
+  | [], _ => True
+  | p :: ps, start =>
+    (0 < p.usr → ¬ insideAt r xs start → 0 < p.cut) ∧
+    (0 < p.usr → ¬ insideAt r xs (start + p.usr - 1) → 0 < p.trim) ∧ Flagged r xs ps (start + p.raw)
+
+def flaggedB (r : Range) (a : Array Rat) : List Part → Nat → Bool
+  | [], _ => true
+  | p :: ps, start =>
+    (p.usr == 0 || hasAt r a start || decide (0 < p.cut))
+    && (p.usr == 0 || hasAt r a (start + p.usr - 1) || decide (0 < p.trim))
+    && flaggedB r a ps (start + p.raw)
+
 def validB (r : Range) (xs : List Rat) (ps : List Part) : Bool :=
   let a := xs.toArray
   decide ((ps.map (·.raw)).sum = xs.length) && ps.all (fun p => decide (0 < p.raw))
   && (List.range xs.length).all (fun i => if hasAt r a i then drawnCount ps 0 i == 1 else true)
-  && interiorB r a ps 0
+  && interiorB r a ps 0 && flaggedB r a ps 0
 
 end Mpt.Visible
